@@ -366,6 +366,25 @@ def driver_failure(ctx, out, what="driver failed"):
     raise CheckError("%s:\n%s" % (what, (out or "")[-3000:]))
 
 
+def run_extra(ctx, modname, quick):
+    """Run a GROWTH module (a part of the specification beyond the listed properties, attached to the closest property).
+    What it observes on the real code counts (violations are reported through report_violation as usual); a failure to RUN
+    it (build, TLC, dead driver) is recorded as a note and does not take the property's own check down with it."""
+    import importlib
+    t = time.time()
+    try:
+        mod = importlib.import_module("props." + modname)
+        cov = mod.run(ctx, quick)
+        ctx.log("growth module %s: done in %.0fs" % (modname, time.time() - t))
+        return cov
+    except RepoPanic:
+        raise
+    except CheckError as ex:
+        ctx.notes.append("growth module %s could not be carried out in this run (not a verdict): %s" % (modname, str(ex)[:600]))
+        ctx.log("growth module %s could not run: %s" % (modname, str(ex)[:300]))
+        return {"not_run": str(ex)[:300]}
+
+
 def report_violation(ctx, key, what, replay_src=None, payload=None):
     """Record a violation observed on the real code. `key` identifies the specific input / call site /
     history signature; it is matched against known_findings.jsonl (status known)."""
